@@ -32,7 +32,8 @@ W.preload([IDS])
 
 
 def _swap(p):
-    return p.lower() if p.isupper() else p.upper()
+    """The other-case label of a liquid/solid phase (the gas label has none)."""
+    return {'l': 'L', 'L': 'l', 's': 'S', 'S': 's'}.get(p, p)
 
 
 def _ptuple(ps):
@@ -153,14 +154,18 @@ def _rows_clauses(w, tag, st, pre_flows, post):
     tot = {c: 0. for c in st.CASs}
     for (p, cas), v in post['flows'].items():
         tot[cas] = tot[cas] + v
+    want = {c: 0. for c in st.CASs}
+    for (p, cas), v in pre_flows.items():
+        want[cas] = want[cas] + v
     for cas in st.CASs:
-        w.ensure(f'{tag}: total[{cas}] unchanged', w.eq(tot[cas], st.total[cas]))
+        w.ensure(f'{tag}: total[{cas}] unchanged', w.eq(tot[cas], want[cas]))
 
 
-def _common_clauses(w, tag, st, post):
+def _common_clauses(w, tag, st, post, T, P):
+    """T, P are the values expected after the step: those of the pre-state unless the step writes them."""
     s = st.s
-    w.ensure(f'{tag}: T unchanged', w.eq(post['T'], st.T))
-    w.ensure(f'{tag}: P unchanged', w.eq(post['P'], st.P))
+    w.ensure(f'{tag}: T unchanged', w.eq(post['T'], T))
+    w.ensure(f'{tag}: P unchanged', w.eq(post['P'], P))
     w.ensure(f'{tag}: same thermal condition object', w.And(s._thermal_condition is st.tc))
     w.ensure(f'{tag}: rep_ok', W.rep_ok(w, s))
     # views obtained earlier belong to this multi-phase incarnation only
@@ -177,14 +182,14 @@ def _class_clause(w, tag, post, single):
              cls=post['class'], phases=post['phases'])
 
 
-def _view_reads(w, tag, st, post, held_only=False):
-    """Parent -> view visibility: every phase view reads the parent's row, T and P."""
+def _view_reads(w, tag, st, post, fresh=()):
+    """Parent -> view visibility: the phase views taken so far (and `ms[p]` for p in fresh) read the parent's row, T and P."""
     s = st.s
     if post['class'] != 'MultiStream': return
     IDs = s.chemicals.IDs
     for p in post['phases']:
         views = []
-        if not held_only: views.append(('view', s[p]))
+        if p in fresh: views.append(('view', s[p]))
         if p in st.held: views.append(('view obtained earlier', st.held[p]))
         for nm, v in views:
             w.ensure(f'{tag}: {nm} of {p} reads the parent row, T and P',
@@ -227,7 +232,7 @@ def _step(w, st, i, op, must_apply=False):
         w.ensure(f'{tag}: phases are the requested set', w.And(post['phases'] == _ptuple(target)), got=post['phases'])
         _class_clause(w, tag, post, len(set(target)) == 1)
         _rows_clauses(w, tag, st, flows, post)
-        _common_clauses(w, tag, st, post)
+        _common_clauses(w, tag, st, post, pre['T'], pre['P'])
         _view_reads(w, tag, st, post)
     elif kind == 'single':
         if not _covers((arg,), ne): return skip()
@@ -236,7 +241,7 @@ def _step(w, st, i, op, must_apply=False):
         w.ensure(f'{tag}: phases are the requested set', w.And(post['phases'] == (arg,)), got=post['phases'])
         _class_clause(w, tag, post, True)
         _rows_clauses(w, tag, st, flows, post)
-        _common_clauses(w, tag, st, post)
+        _common_clauses(w, tag, st, post, pre['T'], pre['P'])
     # ---- conversions where the code chooses the target
     elif kind == 'as_stream':
         groups = {p.lower() for p in ne}
@@ -252,7 +257,7 @@ def _step(w, st, i, op, must_apply=False):
             w.ensure(f'{tag}: converts only when at most one phase is non-empty', w.And(len(groups) <= 1), nonempty=ne)
             _class_clause(w, tag, post, True)
             _rows_clauses(w, tag, st, flows, post)
-        _common_clauses(w, tag, st, post)
+        _common_clauses(w, tag, st, post, pre['T'], pre['P'])
     elif kind == 'reduce':
         s.reduce_phases()
         post = _obs(s)
@@ -267,7 +272,7 @@ def _step(w, st, i, op, must_apply=False):
         else:
             w.ensure(f'{tag}: single-phase stream untouched', w.And(post['phases'] == phases, post['class'] == 'Stream'))
         _rows_clauses(w, tag, st, flows, post)
-        _common_clauses(w, tag, st, post)
+        _common_clauses(w, tag, st, post, pre['T'], pre['P'])
         _view_reads(w, tag, st, post)
     elif kind in ('vle', 'lle', 'sle'):
         need, cls = {'vle': ('g', 'l'), 'lle': ('L', 'l'), 'sle': ('l', 's')}[kind], \
@@ -280,7 +285,7 @@ def _step(w, st, i, op, must_apply=False):
         w.ensure(f'{tag}: solver object of this stream',
                  w.And(isinstance(solver, cls), solver._imol is s._imol, solver._thermal_condition is s._thermal_condition))
         _rows_clauses(w, tag, st, flows, post)
-        _common_clauses(w, tag, st, post)
+        _common_clauses(w, tag, st, post, pre['T'], pre['P'])
         _view_reads(w, tag, st, post)
     # ---- writes through a phase view / through the parent
     elif kind == 'vwrite':
@@ -295,8 +300,8 @@ def _step(w, st, i, op, must_apply=False):
         w.ensure(f'{tag}: write through the view is visible in the parent', w.eq(s.imol[arg, 'Water'], x))
         w.ensure(f'{tag}: phases and class unchanged', w.And(post['phases'] == phases, post['class'] == pre['class']))
         _rows_clauses(w, tag, st, flows, post)
-        _common_clauses(w, tag, st, post)
-        _view_reads(w, tag, st, post)
+        _common_clauses(w, tag, st, post, pre['T'], pre['P'])
+        _view_reads(w, tag, st, post, fresh=(arg,))
         st.held.setdefault(arg, v)
     elif kind == 'pwrite':
         if arg not in phases: return skip()
@@ -311,14 +316,15 @@ def _step(w, st, i, op, must_apply=False):
         post = _obs(s)
         w.ensure(f'{tag}: phases and class unchanged', w.And(post['phases'] == phases, post['class'] == pre['class']))
         _rows_clauses(w, tag, st, flows, post)
-        _common_clauses(w, tag, st, post)
-        _view_reads(w, tag, st, post)
+        _common_clauses(w, tag, st, post, pre['T'], pre['P'])
+        _view_reads(w, tag, st, post, fresh=(arg,) if multi else ())
     elif kind == 'TP':
         t = w.real(f't{i}', lo=0., lo_strict=True)
         pp = w.real(f'p{i}', lo=0., lo_strict=True)
         s.T = t
         if multi:
-            s[phases[-1]].P = pp       # through a view
+            v = s[phases[-1]]
+            v.P = pp       # through a view
         else:
             s.P = pp
         st.T, st.P = t, pp
@@ -327,14 +333,15 @@ def _step(w, st, i, op, must_apply=False):
                  w.And(w.eq(s.T, t), w.eq(s.P, pp)))
         w.ensure(f'{tag}: phases and class unchanged', w.And(post['phases'] == phases, post['class'] == pre['class']))
         _rows_clauses(w, tag, st, flows, post)
-        _common_clauses(w, tag, st, post)
-        _view_reads(w, tag, st, post)
+        _common_clauses(w, tag, st, post, t, pp)
+        _view_reads(w, tag, st, post, fresh=phases if multi else ())
+        if multi: st.held.setdefault(phases[-1], v)
     # ---- save / restore
     elif kind == 'save':
         st.saved = {'data': s.get_data(), 'obs': pre, 'total': dict(st.total)}
         post = _obs(s)
         w.ensure(f'{tag}: saving changes nothing', w.And(W.same_snapshot(w, pre, post), post['obj'] is pre['obj']))
-        _common_clauses(w, tag, st, post)
+        _common_clauses(w, tag, st, post, pre['T'], pre['P'])
     elif kind == 'restore':
         if st.saved is None: return skip()
         sv = st.saved
@@ -348,8 +355,9 @@ def _step(w, st, i, op, must_apply=False):
         w.ensure(f'{tag}: flows restored exactly', W.same_snapshot(w, sv['obs'], post))
         for cas in st.CASs:
             w.ensure(f'{tag}: total[{cas}] restored',
-                     w.eq(sum([v for (p, c), v in post['flows'].items() if c == cas], 0.), st.total[cas]))
-        _common_clauses(w, tag, st, post)     # T, P equal the saved values
+                     w.eq(sum([v for (p, c), v in post['flows'].items() if c == cas], 0.),
+                          sum([v for (p, c), v in sv['obs']['flows'].items() if c == cas], 0.)))
+        _common_clauses(w, tag, st, post, sv['obs']['T'], sv['obs']['P'])     # T, P equal the saved values
         _view_reads(w, tag, st, post)
     else:
         raise RuntimeError(f'unknown operation {op}')
